@@ -1,8 +1,11 @@
 import Driver.Common
 import Driver.ObjFmt
 import Driver.C02
+import Driver.C06
 import Parsley.Model.ObjStm
+import Parsley.Model.Loader
 import Parsley.Spec.ObjStm
+import Parsley.Spec.Predictor
 namespace Driver.C14
 open Parsley Parsley.Prim Parsley.Obj Parsley.ObjStm Parsley.ObjStmSpec Parsley.Spelling Driver
 
@@ -20,7 +23,13 @@ open Parsley Parsley.Prim Parsley.Obj Parsley.ObjStm Parsley.ObjStmSpec Parsley.
           mut   arbitrary corruption: correspondence and no-panic only
    predef `-` or comma-separated `id.gen` already defined in the context (bound to the integer 7*(id%1000)+gen%7)
    dechex `=`  no filter is involved (or decoding is expected to fail);
-          else the decoded data the filter chain yields (the decoders are a parameter of the model)
+          else the decoded data the spec-side encoders started from (information only: since C14c the
+          model runs the decoders the loader plugs in, `Loader.objDec` = C06/C07 models, on the view)
+   classes of filtered streams:  flate (one stored block, as before)
+          chain<k>   the data through k layers of the C06 generator (ASCIIHex / ASCII85 / Flate stored,
+                     fixed-Huffman ...), optionally with FlateDecode + TIFF/PNG predictor layers
+          filter     (kind rej) one layer of such a chain corrupted by a C06 corruption: must be `err`
+          filt       (kind mut) a byte of the encoded content altered: correspondence and no panic
 -/
 
 def sexpOpt : Option Obj → String
@@ -78,8 +87,8 @@ def model (line : String) : String :=
     | (.ok ⟨.dict kvs, _, _⟩, _) =>
       let defs : Defs := c.predef.foldl (fun d k => (defsInsert k (preVal k) d).2) []
       let ctx : Ctx := ⟨defs, ⟨0, c.maxd⟩, false⟩
-      let dec : Decoder := fun _ _ => match c.dec with | some d => .ok d | none => .err .transform
-      match objStmParse dec 0 ctx kvs c.view c.cur with
+      -- the decoders are the ones the loader instantiates the parser with (C06 filters, C07 predictor tail)
+      match objStmParse Loader.objDec 0 ctx kvs c.view c.cur with
       | (.ok ms, ctx') =>
         let keys := dedup (ms.map (fun m => (m.num, m.gen)) ++ c.predef)
         okLine (ms.map fun m => (m.num, m.gen, m.obj.start, m.obj.stop, objSexp m.obj.val))
@@ -280,6 +289,120 @@ def memberWant (b : Built) (ps : List (Nat × Nat)) (predef : List ObjId) (cur :
     | none => (k, objSexp (preVal k))
   okLine rows lookups cur 0
 
+
+/-! ### filter chains: the layers of the C06 generator, plus FlateDecode with a predictor -/
+
+/-- a layer still to be fitted to its input: a C06 generator layer; with `predSel` a FlateDecode layer
+    (encoded as the C06 layer `base`, kind F) whose /DecodeParms name a predictor: (predictor, geometry
+    choice, row-width choice), resolved against the length of the layer's input -/
+structure FTemplate where
+  base : C06.Layer
+  predSel : Option (Nat × Nat × Nat) := none
+  parmStyle : Nat := 0
+
+structure FLayer where
+  base : C06.Layer
+  pred : Option PredSpec.Params := none
+  parmStyle : Nat := 0
+
+/-- geometry for rows of `w` bytes: (colors, bits per component, columns) with rowBytes = w -/
+def geometries (tiff : Bool) (w : Nat) : List (Nat × Nat × Nat) :=
+  let whole : List (Nat × Nat) := [(1, 8), (2, 8), (3, 8), (4, 8), (1, 16), (2, 16)]
+  let a := whole.filterMap fun (c, b) => if w % (c * b / 8) == 0 then some (c, b, w / (c * b / 8)) else none
+  let sub : List (Nat × Nat × Nat) := if tiff then [] else [(1, 1, 8 * w), (1, 2, 4 * w), (1, 4, 2 * w), (2, 4, w)]
+  a ++ sub
+
+def FTemplate.resolve (t : FTemplate) (len : Nat) : FLayer :=
+  match t.predSel with
+  | none => ⟨t.base, none, t.parmStyle⟩
+  | some (pr, g, ws) =>
+    let ds := (List.range 41).filter fun d => d ≥ 1 && len % d == 0
+    let w := if ws % 5 == 0 || ds.isEmpty then len else ds[ws % ds.length]?.getD len
+    let gs := geometries (pr == 2) w
+    let (c, b, cols) := gs[g % gs.length]?.getD (1, 8, w)
+    ⟨{ t.base with kind := 'F' }, some ⟨pr, c, cols, b⟩, t.parmStyle⟩
+
+def FLayer.encode (l : FLayer) (x : Bytes) : Bytes :=
+  match l.pred with
+  | some p =>
+    let w := PredSpec.rowBytes p.columns p.colors p.bpc
+    l.base.encode (PredSpec.predict p (PredSpec.splitRows w (x.length / w) x))
+  | none => l.base.encode x
+
+def FLayer.nameText (l : FLayer) : String :=
+  match l.base.kind with | 'H' => "/ASCIIHexDecode" | 'A' => "/ASCII85Decode" | _ => "/FlateDecode"
+
+def FLayer.parmText (l : FLayer) : String :=
+  match l.pred with
+  | some p =>
+    s!"<</Predictor {p.predictor} /Columns {p.columns}" ++
+      (if p.colors != 1 || l.parmStyle % 2 == 1 then s!" /Colors {p.colors}" else "") ++
+      (if p.bpc != 8 || l.parmStyle / 2 % 2 == 1 then s!" /BitsPerComponent {p.bpc}" else "") ++ ">>"
+  | none => match l.base.pv with | 1 => "<<>>" | 2 => "<</Predictor 1>>" | 3 => "<</Colors 3 /Columns 5>>" | _ => "null"
+
+/-- the encoded content (layers applied innermost first) and the resolved layers; the C06 corruption
+    `op`/`arg` hits the output of layer `corrL` (1 = outermost; 0 = none) -/
+def encodeChain (corrL op arg : Nat) : List FTemplate → Nat → Bytes → Bytes × List FLayer
+  | [], _, x => (x, [])
+  | t :: rest, idx, x =>
+    let (inner, ls) := encodeChain corrL op arg rest (idx + 1) x
+    let l := t.resolve inner.length
+    let e := l.encode inner
+    ((if idx == corrL then C06.corrupt l.base op arg e else e), l :: ls)
+
+/-- how the dictionary spells the chain: a single name (+ parameter dictionary), an array of names,
+    parallel arrays -/
+def filterText (ls : List FLayer) (shapeSel : Nat) : String :=
+  let names := ls.map FLayer.nameText
+  let parms := ls.map FLayer.parmText
+  let allNull := parms.all (· == "null")
+  match ls with
+  | [l] =>
+    if shapeSel % 3 == 0 then
+      s!" /Filter {l.nameText}" ++ (if l.parmText == "null" then "" else s!" /DecodeParms {l.parmText}")
+    else if allNull && shapeSel % 3 == 1 then s!" /Filter [{l.nameText}]"
+    else s!" /Filter [{l.nameText}] /DecodeParms [{l.parmText}]"
+  | _ =>
+    if allNull && shapeSel % 2 == 0 then " /Filter [" ++ " ".intercalate names ++ "]"
+    else " /Filter [" ++ " ".intercalate names ++ "] /DecodeParms [" ++ " ".intercalate parms ++ "]"
+
+/-- the layer kinds of C06's exhaustive stream (ASCIIHex mixed case + white space + odd digit,
+    ASCII85 with `z`, stored blocks, one fixed-Huffman literal block, fixed-Huffman LZ77 blocks) -/
+def c06Kinds : List C06.Layer := [⟨'H', 3, 2, 1, 0⟩, ⟨'A', 5, 2, 0, 0⟩, ⟨'F', 0, 3, 0, 0⟩, ⟨'F', 1, 0, 0, 0⟩,
+                                  ⟨'F', 2, 9, 0, 0⟩, ⟨'F', 3, 4, 0, 0⟩]
+
+/-- chain number `i` of the systematic enumeration: every chain of length 1 and 2 over `c06Kinds` -/
+def sysChain (i : Nat) : List C06.Layer :=
+  let k := c06Kinds.length
+  let j := i % (k + k * k)
+  if j < k then [c06Kinds[j]?.getD default]
+  else [c06Kinds[(j - k) / k]?.getD default, c06Kinds[(j - k) % k]?.getD default]
+
+/-- a chain for case number `i`: systematic (even `i`) or drawn by C06's `randChain` (length 1..3, every
+    /DecodeParms variant of C06: null, `<<>>`, /Predictor 1, unrelated keys); then, one time in three, one
+    layer is given a TIFF (2) or PNG (10..14) predictor -/
+def rndTemplates (r : Rng) (i : Nat) : List FTemplate × Rng :=
+  let (base, r) :=
+    if i % 2 == 0 then (sysChain (i / 2), r)
+    else
+      let (clen, r) := r.nat 3
+      let (ch, r) := C06.randChain r (clen + 1) false
+      let (pv, r) := r.nat 4
+      (ch.map fun l => { l with pv := pv }, r)
+  let (pk, r) := r.nat 3
+  let (ps, r) := r.nat 4
+  let ts : List FTemplate := base.map fun l => ⟨l, none, ps⟩
+  if pk != 0 then (ts, r) else
+    let (pos, r) := r.nat (ts.length + 1)
+    let (pr, r) := r.pick ([2, 10, 11, 12, 13, 14, 12, 2] : List Nat)
+    let (g, r) := r.nat 10
+    let (ws, r) := r.nat 50
+    let (mode, r) := r.nat 4
+    let (sd, r) := r.nat 50
+    let pl : FTemplate := ⟨⟨'F', mode, sd, 0, 0⟩, some (pr, g, ws), ps⟩
+    -- inserted, or (when the position holds a Flate layer already) replacing it
+    (ts.take pos ++ [pl] ++ ts.drop pos, r)
+
 def setNth {α : Type} (l : List α) (i : Nat) (x : α) : List α := l.take i ++ [x] ++ l.drop (i + 1)
 
 def gen (seed n : Nat) (tier : String) (emit : String → IO Unit) : IO Unit := do
@@ -309,6 +432,7 @@ def gen (seed n : Nat) (tier : String) (emit : String → IO Unit) : IO Unit := 
             emit s!"ex {hdr.length}.{o0}.{o1} 4 0 - {hexOfBytes d} {hexOfBytes (hdr ++ c)} ="
   -- random structured cases and their single-rule corruptions
   let mut r := Rng.mk' seed
+  let mut chainIdx := seed % 97
   for _ in List.range n do
     let (nobj, r1) := r.nat 6
     let nobj := nobj + 1
@@ -316,8 +440,10 @@ def gen (seed n : Nat) (tier : String) (emit : String → IO Unit) : IO Unit := 
     let (b, r3) := rndMembers r2 nobj gapStyle
     let (plain, r4) := r3.nat 3
     let (ws, r5) := rndLayout r4 nobj (plain == 0)
-    let (padK, r6) := r5.nat 4
-    let pad : Bytes := match padK with | 0 => [32] | 1 => [10] | 2 => bs " x y\n" | _ => bs "\n%pad\n "
+    let (padK, r6) := r5.nat 5
+    -- (variant 4: nine NUL bytes - white space to the parser, an all-zero group (`z`) to an ASCII85 layer)
+    let pad : Bytes := match padK with | 0 => [32] | 1 => [10] | 2 => bs " x y\n" | 3 => bs "\n%pad\n "
+                                       | _ => List.replicate 9 0
     let (trail, r7) := rndJunk r6
     let trail := if trail.isEmpty then [] else trail
     let es := b.entries
@@ -354,6 +480,40 @@ def gen (seed n : Nat) (tier : String) (emit : String → IO Unit) : IO Unit := 
       -- the decoder reads from the cursor: put junk before it
       let junk := bs "JUNK"
       emit s!"rt flate {maxd} {junk.length} {predefStr pre} {hexOfBytes dictF} {hexOfBytes (junk ++ z)} {hexOfBytes data} => {memberWant b ps pre junk.length}"
+    -- the same stream through a filter chain of the C06 generator (+ predictor layers); the model runs the
+    -- loader's decoders, the harness the real ones; then one layer corrupted, one encoded byte altered
+    let (ck, r21) := r.nat 3
+    r := r21
+    if ck == 0 then
+      chainIdx := chainIdx + 1
+      let (ts, r22) := rndTemplates r chainIdx
+      let (shapeSel, r23) := r22.nat 6
+      let (jk, r24) := r23.nat 3
+      let (eol, r25) := r24.nat 4
+      r := r25
+      let junk : Bytes := match jk with | 0 => [] | 1 => bs "JUNK" | _ => bs "<</N 1>>stream\n"
+      let (enc, ls) := encodeChain 0 0 0 ts 1 data
+      let (dictC, r26) := dictFor r nobj first (filterText ls shapeSel)
+      r := r26
+      let viewC := junk ++ enc ++ C06.eolBytes eol
+      emit s!"rt chain{ls.length} {maxd} {junk.length} {predefStr pre} {hexOfBytes dictC} {hexOfBytes viewC} {hexOfBytes data} => {memberWant b ps pre junk.length}"
+      let (what, r27) := r.nat 4
+      let (lay, r28) := r27.nat ls.length
+      let (arg, r29) := r28.nat 100000
+      let (opSel, r30) := r29.nat 5
+      r := r30
+      if what == 0 then
+        let kind := (ls[lay]?.map (·.base.kind)).getD 'F'
+        let op := if kind == 'H' then 1 + opSel % 3 else 1 + opSel
+        let (encBad, _) := encodeChain (lay + 1) op arg ts 1 data
+        if encBad != enc then
+          emit s!"rej filter {maxd} {junk.length} {predefStr pre} {hexOfBytes dictC} {hexOfBytes (junk ++ encBad ++ C06.eolBytes eol)} ="
+      else if what == 1 then
+        let (nb, r31) := r.byte
+        r := r31
+        let k := arg % enc.length
+        let encMut := if opSel == 0 then enc.take k else setNth enc k nb
+        emit s!"mut filt {maxd} {junk.length} {predefStr pre} {hexOfBytes dictC} {hexOfBytes (junk ++ encMut)} ="
     -- single-rule corruptions
     let (mk, r16) := r.nat 13
     let (pos, r17) := r16.nat nobj
@@ -463,14 +623,14 @@ def gen (seed n : Nat) (tier : String) (emit : String → IO Unit) : IO Unit := 
       let (d, dat) := withHdr ps' nobj
       emit (line "mut" "hdr" maxd pre d dat "")
 
-/-- non-trivial: at least two members, or a corruption/flate case; exhaustive cases count when both
+/-- non-trivial: at least two members, or a corruption/flate/filter-chain case; exhaustive cases count when both
     offsets lie inside the content -/
 def nontrivial (line : String) : Bool :=
   match parseCase line with
   | none => false
   | some c =>
     match c.kind with
-    | "rt" => (c.want.splitOn "] [").length ≥ 2 || c.cls == "flate"
+    | "rt" => (c.want.splitOn "] [").length ≥ 2 || c.cls == "flate" || c.cls.startsWith "chain"
     | "ex" => match exParts c with | some (ct, a, b) => a < ct.length && b < ct.length && a != b | none => false
     | _ => c.view.length ≥ 12
 
